@@ -23,6 +23,11 @@ CHECKS = {
          "TLC checks PathsAgree, MergeTransformsSame, CondPropagates and InverseExact on every nesting (depth <= 2 quick, <= 3 thorough) of conditional / unconditional exact bases with conditional / unconditional bijection layers (affine, additive-condition, chains, Invert, Scan, mapped Vmap). Each state is an implementation test with absolute expected values, so a sign flip applied consistently to both paths, a condition that does not reach a conditional base, or a reversed merge_transforms changes an exact integer. Real flows (5 factories x invert x condition x transformer x dim, perturbed parameters) are checked relationally with base_dist / bijection.",
          "The exact base is a user-defined AbstractDistribution (public extension point) with a linear log-density and a deterministic draw; log-dets are log2-det * ln 2 compared to 1e-9. BNAF and the triangular spline flow are built under a harness-only equinox shim (DESIGN section 8); the BNAF joint-vs-log_prob comparison allows the bisection tolerance. The orientation a factory chooses is implementation-layer (drift note).",
          "DESIGN.md 4.9, 5 (C03)"),
+ "C05": ("exploration",
+         "TLA+ specification of the supports (exact interval algebra over rationals), independence over coordinates and parameter broadcasting of the named families (Families.tla) model-checked with TLC; every (family, parameters, point) state replayed into the real distribution and compared with the textbook log-density evaluated in NumPy; accessors, MultivariateNormal and mixtures against their textbook formulas",
+         "Density, accessor and mixture clauses only. TLC decides exactly which coordinates are inside / on the edge of / outside the support for every state (9 families x scalar/vector broadcasting of loc, scale, df x points), so log_prob must be -inf exactly when a coordinate is outside, never NaN (edges included), and otherwise equal the textbook term summed over coordinates; swapped loc/scale, rate for 1/rate, maxval for maxval-minval, a wrong sign or a mean instead of a sum all change the number.",
+         "NOT DECIDED: the clause 'samples follow that density' needs a goodness-of-fit statistic, which this technique cannot supply (only the structural fact sample = loc + scale * standard draw for the same key is checked). log, exp, lgamma are evaluated with math / NumPy in float64 (trusted base; the formulas were validated against SciPy once at build time).",
+         "DESIGN.md 5 (C05), 6"),
  "C06": ("model_checking",
          "TLA+ specification of NumPy broadcasting of batch shapes, the per-element (x slice, condition slice) index maps and the key assignment of the distribution vectoriser (Vectorize.tla), model-checked with TLC over a shape lattice; every configuration TLC prints is replayed on real distributions and each output element compared with the unbatched public call on the slices TLC designates",
          "TLC enumerates (event shape rank 0-2) x (condition shape none / rank 0-2) x (batch shapes of x and of the condition incl. size-1 axes, zero extents, pairs that must be rejected) x sample_shapes, checks the index maps are total, onto and aligned and the key map injective, and writes the maps out; the real log_prob / sample / sample_and_log_prob must have TLC's result shapes, every element must equal the unbatched call on the designated slices, draws must be pairwise distinct and reproducible, non-broadcastable pairs must raise.",
@@ -91,6 +96,7 @@ CHECKS = {
 }
 
 NA = {
+ "__dummy__": "",
  "C04": "deciding procedure is numerical quadrature plus a goodness-of-fit statistic; there is no state or transition for a TLA+ specification to decide (DESIGN.md section 6)",
 }
 
